@@ -1,6 +1,7 @@
 // ---- unit prelude: consumer_offsets (C07) -------------------------------------------------------
 // Stand-in types, assumed contracts of non-extracted callees, and the spec vocabulary of C07.
 
+#[derive(Debug)]
 pub enum IggyError {
     InvalidOffset(u64),
     ConsumerOffsetNotFound(u32),
@@ -12,8 +13,7 @@ pub enum IggyError {
     Io,
 }
 
-// std functions vstd has no specification for (no functional content is assumed)
-pub assume_specification<T: core::marker::Destruct> [core::mem::drop] (_0: T);
+// std function vstd has no specification for (no functional content is assumed; used for an error payload)
 pub assume_specification<T: Clone> [<T as std::borrow::ToOwned>::to_owned] (s: &T) -> (r: T);
 
 // --- FilePath: stand-in for the `Arc<String>` that holds the path "{dir}/{id}" of one offset file (R4/R10).
@@ -142,7 +142,7 @@ pub open spec fn emap(p: &Partition, k: ConsumerKind) -> Map<u32, ConsumerOffset
     match k { ConsumerKind::Consumer => p.consumer_offsets@, ConsumerKind::ConsumerGroup => p.consumer_group_offsets@ }
 }
 pub open spec fn offs(m: Map<u32, ConsumerOffset>) -> Map<u32, u64> {
-    Map::new(|id: u32| m.contains_key(id), |id: u32| m[id].offset)
+    Map::new(m.dom(), |id: u32| m[id].offset)
 }
 // the abstract view: stored offsets by (kind, id)
 pub open spec fn sel(p: &Partition, k: ConsumerKind) -> Map<u32, u64> { offs(emap(p, k)) }
@@ -196,6 +196,17 @@ pub open spec fn mirrored(p: &Partition) -> bool {
 }
 pub open spec fn dirs_distinct(p: &Partition) -> bool { p.consumer_offsets_path@ != p.consumer_group_offsets_path@ }
 
+// entry-level frames (helper): the entries with ids outside `s` are the same in ma and mb
+pub open spec fn same_entries_except(ma: Map<u32, ConsumerOffset>, mb: Map<u32, ConsumerOffset>, s: spec_fn(u32) -> bool) -> bool {
+    &&& forall|id: u32| #![trigger ma.contains_key(id)] #![trigger mb.contains_key(id)] !s(id) ==> ma.contains_key(id) == mb.contains_key(id)
+    &&& forall|id: u32| #![trigger ma[id]] #![trigger mb[id]] !s(id) && ma.contains_key(id) ==> ma[id] == mb[id]
+}
+pub open spec fn store_entries(a: &Partition, b: &Partition, k: ConsumerKind, id: u32, o: u64) -> bool {
+    &&& emap(b, k).contains_key(id) && emap(b, k)[id].offset == o
+    &&& same_entries_except(emap(a, k), emap(b, k), |j: u32| j == id)
+    &&& emap(b, other(k)) =~= emap(a, other(k))
+}
+
 // --- what the operations do to the view (used by the contracts AND by the isolation lemmas) ---
 pub open spec fn store_post(a: &Partition, b: &Partition, k: ConsumerKind, id: u32, o: u64) -> bool {
     &&& sel(b, k) =~= sel(a, k).insert(id, o)
@@ -235,4 +246,127 @@ impl Partition {
             final(self).consumer_group_offsets_path == old(self).consumer_group_offsets_path,
             final(self).current_offset == old(self).current_offset,
     { unimplemented!() }
+}
+
+// --- identity of a consumer: numeric id, or the 32-bit hash of its name ---
+pub uninterp spec fn le_u32(v: Seq<u8>) -> u32;          // u32::from_le_bytes
+pub mod hash {
+    use super::*;
+    pub uninterp spec fn hash32(data: Seq<u8>) -> u32;   // XxHash32::oneshot(0, data)
+    #[verifier::external_body]
+    pub fn calculate_32(data: &[u8]) -> (r: u32)
+        ensures r == hash32(data@),
+    { unimplemented!() }
+}
+// validity of an Identifier as established by its constructors (numeric ids are 4 bytes)
+pub open spec fn ident_wf(i: &Identifier) -> bool {
+    match i.kind { IdKind::Numeric => i.length == 4 && i.value@.len() == 4, IdKind::String => true }
+}
+pub open spec fn ident_id(i: Identifier) -> u32 {
+    match i.kind { IdKind::Numeric => le_u32(i.value@), IdKind::String => hash::hash32(i.value@) }
+}
+impl Identifier {
+    // sdk: Err unless kind == Numeric && length == 4, else u32::from_le_bytes(value)
+    #[verifier::external_body]
+    pub fn get_u32_value(&self) -> (r: Result<u32, IggyError>)
+        ensures match self.kind {
+            IdKind::Numeric => if self.length == 4 { r == Ok::<u32, IggyError>(le_u32(self.value@)) } else { r is Err },
+            IdKind::String => r is Err,
+        },
+    { unimplemented!() }
+}
+
+// --- topic level: partitions are reached through `Topic::get_partition` ------------------------------
+// `IggySharedMut<Partition>` (Arc<RwLock<Partition>>) is mapped to `Partition` (R4), `.read()`/`.write()` are
+// dropped (R5) and the shared handle that `get_partition` clones out of the table becomes an exclusive
+// borrow of the table entry (R6). `get_partition` itself (catalogue, C06) is not extracted; assumed: it
+// returns the partition registered under `partition_id`, Err(PartitionNotFound) if there is none.
+#[verifier::external_body]
+pub struct GroupMembers { x: u8 }
+pub uninterp spec fn topic_group(t: &Topic, id: Identifier) -> Option<ConsumerGroup>;
+pub uninterp spec fn cg_current(g: &ConsumerGroup, member_id: u32) -> Result<Option<u32>, IggyError>;
+impl Topic {
+    #[verifier::external_body]
+    pub fn get_partition(&mut self, partition_id: u32) -> (r: Result<&mut Partition, IggyError>)
+        ensures
+            final(self).stream_id == old(self).stream_id && final(self).topic_id == old(self).topic_id,
+            final(self).consumer_groups == old(self).consumer_groups && final(self).consumer_groups_ids == old(self).consumer_groups_ids,
+            match r {
+                Ok(p) => old(self).partitions@.contains_key(partition_id) && *p == old(self).partitions@[partition_id]
+                    && final(self).partitions@ == old(self).partitions@.insert(partition_id, *final(p)),
+                Err(_) => !old(self).partitions@.contains_key(partition_id) && final(self).partitions == old(self).partitions,
+            },
+    { unimplemented!() }
+
+    // topics/consumer_groups.rs (C06/C08): lookup of a group by numeric id or by name — a function of the topic
+    #[verifier::external_body]
+    pub fn get_consumer_group(&self, identifier: &Identifier) -> (r: Result<&ConsumerGroup, IggyError>)
+        ensures match r { Ok(g) => topic_group(self, *identifier) == Some(*g), Err(_) => topic_group(self, *identifier) is None },
+    { unimplemented!() }
+}
+impl ConsumerGroup {
+    // advances the member's round-robin position (interior mutability): nothing assumed about the result
+    #[verifier::external_body]
+    pub fn calculate_partition_id(&self, member_id: u32) -> (r: Result<Option<u32>, IggyError>)
+    { unimplemented!() }
+    // reads the member's current partition: a function of the group state
+    #[verifier::external_body]
+    pub fn get_current_partition_id(&self, member_id: u32) -> (r: Result<Option<u32>, IggyError>)
+        ensures r == cg_current(self, member_id),
+    { unimplemented!() }
+}
+
+pub open spec fn pid_or_default(partition_id: Option<u32>) -> u32 { match partition_id { Some(p) => p, None => 1 } }
+// identity resolution without advancing the group (calculate_partition_id == false), as a function:
+// None = Err, Some(None) = "no partition assigned", Some(Some((identity, partition)))
+pub open spec fn resolve_fn(t: &Topic, c: &Consumer, client_id: u32, partition_id: Option<u32>) -> Option<Option<(PollingConsumer, u32)>> {
+    match c.kind {
+        ConsumerKind::Consumer => Some(Some((PollingConsumer::Consumer(ident_id(c.id), pid_or_default(partition_id)), pid_or_default(partition_id)))),
+        ConsumerKind::ConsumerGroup => match topic_group(t, c.id) {
+            None => None,
+            Some(g) => match partition_id {
+                Some(p) => Some(Some((PollingConsumer::ConsumerGroup(g.group_id, client_id), p))),
+                None => match cg_current(&g, client_id) {
+                    Err(_) => None,
+                    Ok(None) => Some(None),
+                    Ok(Some(p)) => Some(Some((PollingConsumer::ConsumerGroup(g.group_id, client_id), p))),
+                },
+            },
+        },
+    }
+}
+pub open spec fn res_opt<T>(r: Result<T, IggyError>) -> Option<T> { match r { Ok(v) => Some(v), Err(_) => None } }
+
+pub open spec fn topic_paths_ok(t: &Topic) -> bool {
+    forall|pid: u32| #[trigger] t.partitions@.contains_key(pid) ==> paths_ok(&t.partitions@[pid])
+}
+// every partition except `pid` is literally the same object, nothing else of the topic changed
+pub open spec fn topic_frame(a: &Topic, b: &Topic, pid: u32) -> bool {
+    &&& a.stream_id == b.stream_id && a.topic_id == b.topic_id
+    &&& a.consumer_groups == b.consumer_groups && a.consumer_groups_ids == b.consumer_groups_ids
+    &&& forall|q: u32| #![trigger a.partitions@.contains_key(q)] #![trigger b.partitions@.contains_key(q)] a.partitions@.contains_key(q) == b.partitions@.contains_key(q)
+    &&& forall|q: u32| #![trigger b.partitions@[q]] q != pid && a.partitions@.contains_key(q) ==> b.partitions@[q] == a.partitions@[q]
+}
+pub open spec fn topic_unchanged(a: &Topic, b: &Topic) -> bool {
+    &&& a.stream_id == b.stream_id && a.topic_id == b.topic_id
+    &&& a.consumer_groups == b.consumer_groups && a.consumer_groups_ids == b.consumer_groups_ids
+    &&& forall|q: u32| #![trigger a.partitions@.contains_key(q)] #![trigger b.partitions@.contains_key(q)] a.partitions@.contains_key(q) == b.partitions@.contains_key(q)
+    &&& forall|q: u32| #![trigger b.partitions@[q]] a.partitions@.contains_key(q) ==> unchanged(&a.partitions@[q], &b.partitions@[q])
+}
+// the partition-level store/delete applied to partition `pid` of the topic, everything else framed
+pub open spec fn topic_store_post(a: &Topic, b: &Topic, pid: u32, pc: PollingConsumer, offset: u64, ok: bool) -> bool {
+    &&& topic_frame(a, b, pid)
+    &&& ok == (offset <= a.partitions@[pid].current_offset)
+    &&& ok ==> store_post(&a.partitions@[pid], &b.partitions@[pid], pc_kind(pc), pc_id(pc), offset)
+    &&& ok ==> files(&b.partitions@[pid]) =~= files(&a.partitions@[pid]).insert((dir_of(&a.partitions@[pid], pc_kind(pc)), pc_id(pc)), offset)
+    &&& !ok ==> unchanged(&a.partitions@[pid], &b.partitions@[pid])
+    &&& rest_same(&a.partitions@[pid], &b.partitions@[pid])
+}
+pub open spec fn topic_delete_post(a: &Topic, b: &Topic, pid: u32, pc: PollingConsumer, ok: bool) -> bool {
+    &&& topic_frame(a, b, pid)
+    &&& ok == sel(&a.partitions@[pid], pc_kind(pc)).contains_key(pc_id(pc))
+    &&& ok ==> delete_post(&a.partitions@[pid], &b.partitions@[pid], pc_kind(pc), pc_id(pc))
+    &&& ok ==> files(&b.partitions@[pid]) =~= files(&a.partitions@[pid]).remove((dir_of(&a.partitions@[pid], pc_kind(pc)), pc_id(pc)))
+    &&& !ok ==> unchanged(&a.partitions@[pid], &b.partitions@[pid])
+    &&& rest_same(&a.partitions@[pid], &b.partitions@[pid])
 }
